@@ -17,7 +17,7 @@ func init() {
 		ID: "C05", Fn: c05, Race: false,
 		Rule:        "one evaluation = one search observed through our own UciDriver (exactly what a GUI is sent) and LastSearchResult: best move legal in the root (refchess), ponder move legal after it, every iteration PV and the final PV a playable legal sequence starting with the best move, caller's position unchanged, search returns; workload = positions incl. in-check / single-move / long-history / repetition-loaded / 50-move-edge roots x limit modes (depth, nodes, movetime, clock, infinite+stop, ponder+stop, ponder+ponderhit) x random subsets of all search switches x stop moments (node limit swept 1..N, asynchronous StopSearch after seeded delays) x warm tables (chains of searches on one Search without NewGame, 1 MB hash); distinct = distinct (root identity, limit, configuration mask, chain position)",
 		Assumptions: []string{"refchess legality", "non-termination is judged by the per-shard watchdog and goroutine dump, see DESIGN 1.2"},
-		Required:    []string{"searches", "mode_depth", "mode_nodes", "mode_movetime", "mode_clock", "mode_infinite_stop", "mode_ponder_stop", "mode_ponder_hit", "pv_lines_validated", "pv_len_ge_3", "ponder_moves_validated", "warm_table_searches", "stopped_mid_iteration", "tt_cut_searches", "roots_in_check", "roots_single_move", "roots_with_history", "node_sweep_searches", "roots_drawn_by_history", "roots_fifty_move_edge", "roots_heavy", "roots_contested_square"},
+		Required:    []string{"searches", "mode_depth", "mode_nodes", "mode_movetime", "mode_clock", "mode_infinite_stop", "mode_ponder_stop", "mode_ponder_hit", "pv_lines_validated", "pv_len_ge_3", "ponder_moves_validated", "warm_table_searches", "stopped_mid_iteration", "tt_cut_searches", "roots_in_check", "roots_single_move", "roots_with_history", "node_sweep_searches", "roots_drawn_by_history", "roots_fifty_move_edge", "roots_heavy", "roots_contested_square", "roots_castling_refused"},
 		MinEvals:    1000,
 		TimeoutQ:    20 * 60e9,
 		TimeoutT:    120 * 60e9,
@@ -316,6 +316,11 @@ func c05(c *Ctx) {
 		case 2: // long history
 			steps = playout(r, start, 60+r.Intn(200), Bias{Capture: 0.3, Castle: 5, Promo: 3, Ep: 8, Double: 1, KingRook: 2, Shuffle: 3})
 			kind = "long-history"
+		case 5: // castling is pseudo-legal but not legal at the root (transit / target attacked, in check)
+			start = castleRefusedPosition(r)
+			steps = nil
+			kind = "castle-refused"
+			rep.Inc("roots_castling_refused")
 		case 4: // a board crowded with heavy pieces (as after many promotions): more than 64 legal
 			// moves, squares contested by a dozen pieces, enormous quiescence trees
 			start = heavyPosition(r)
